@@ -70,8 +70,16 @@ ReleaseTok(cfg, s, i) ==
   ELSE [s1 EXCEPT !.cnt.busy = @ - 1]
 
 (* the window closes: the algorithm sees it once, enforcement follows its new estimate *)
+(* PanicMark in the script: the algorithm takes the sample and then faults (panics); the completion's caller recovers and   *)
+(* goes on using the limiter.  The window has been handed over all the same - once: it is closed, the period runs; the   *)
+(* estimate and the limit in force stay as they were.                                                                    *)
+PanicMark == -7777
+
 Update(cfg, s, w) ==
-  IF s.rem < 0 /\ Ready(cfg, w)
+  IF s.rem < 0 /\ Ready(cfg, w) /\ s.nsamp + 1 <= Len(cfg.script) /\ cfg.script[s.nsamp + 1] = PanicMark
+  THEN [st |-> [s EXCEPT !.win = EmptyWin, !.nsamp = @ + 1, !.rem = Min(Max(2 * w.min, cfg.minw), cfg.maxw)],
+        samples |-> <<[rtt |-> w.min, inflight |-> w.maxin, drop |-> w.drop]>>]
+  ELSE IF s.rem < 0 /\ Ready(cfg, w)
   THEN LET n == s.nsamp + 1
            \* once its script is used up the scripted algorithm's OnSample leaves the estimate alone (like a settable
            \* limit): the estimate is then whatever it was moved to from outside (op "ext")
